@@ -22,8 +22,13 @@ def gen_state(rng, scale=None, default_bias=0.4):
     tau = rng.choice([0.0, 1e-9 * beta, beta / 50.0, beta / 50.0, 3.0 * beta, rng.uniform(0, 2) * beta])
     st = {"mu": 25.0 * k, "sigma": 25.0 / 3.0 * k, "beta": beta, "kappa": kappa, "tau": tau,
           "gamma": rng.choice(GAMMAS), "limit": rng.random() < 0.3}
-    if rng.random() < 0.12:
+    r = rng.random()
+    if r < 0.10:
         st["ctor"] = "setattr"      # parameters assigned after construction instead of passed to the constructor
+    elif r < 0.22:
+        st["ctor"] = "reassign"     # a model already used with other parameters, then re-parameterised by assignment
+    elif r < 0.25:
+        st["ctor"] = "subcls"       # the model's rating-class attribute replaced by a subclass
     return st
 
 
@@ -153,7 +158,7 @@ def random_weak_order(rng, n):
     return [dense[x] for x in v]
 
 
-ENCODINGS = ["dense", "ints", "neg", "floats", "mixed", "bools", "zeros", "big", "huge", "negzero", "onebased", "bigmixed"]
+ENCODINGS = ["dense", "ints", "neg", "floats", "mixed", "bools", "zeros", "big", "huge", "negzero", "onebased", "bigmixed", "astro"]
 
 
 def encode_order(rng, order, enc=None):
@@ -190,6 +195,10 @@ def encode_order(rng, order, enc=None):
         vals = [("F", -0.0) if i == z else ("I", i - z) for i in range(k)]
     elif enc == "big":
         base = rng.choice([2 ** 53, -2 ** 53, 2 ** 60, 10 ** 18, -10 ** 18])
+        vals = [("I", base + i) for i in range(k)]
+    elif enc == "astro":
+        # Python ints far beyond the range of a double (they compare exactly; they must never be coerced to float)
+        base = rng.choice([10 ** 400, 1 << 1024, -(10 ** 400), (1 << 1100) + 12345])
         vals = [("I", base + i) for i in range(k)]
     elif enc == "bigmixed":
         # ints and floats interleaved just above 2^53, where a float cannot tell neighbouring ints apart:
@@ -263,7 +272,7 @@ def gen_predict_case(rng, op=None, kind=None, scale=None):
     nums = gen_teams_num(rng, st, shape)
     if rng.random() < 0.05:
         nums = [[(mu, sg * 1e-3) for mu, sg in t] for t in nums]
-    teams = rating_vals(kind, nums, rng)
+    teams = rating_vals(kind, nums, rng, ids="same" if rng.random() < 0.08 else "fresh")
     c = {"op": op or rng.choice(["pwin", "pdraw", "prank"]), "kind": kind, "st": st, "args": [teams]}
     if rng.random() < 0.3:
         c["share"] = True
